@@ -65,6 +65,7 @@ type Stats struct {
 	Capped      string
 	Violations  []CounterExample
 	NViolations int64
+	kept        map[string]int // violations seen per (key, shape)
 	Samples     [][]string
 	PerDepth    []int64
 }
@@ -175,13 +176,15 @@ func Run[I any, O any](sp *Spec[I, O]) *Stats {
 						if !ok {
 							v = &Vio{Key: "error", Desc: s.err.Error()}
 						}
-						n := 0
-						for _, c := range st.Violations {
-							if c.Key == v.Key {
-								n++
-							}
+						// kept: at most 2 per (key, shape of the description) - see vrep.Shape: a violation that
+						// merely shares its key with another one must not be dropped
+						cls := v.Key + "\x00" + vrep.Shape(v.Desc)
+						if st.kept == nil {
+							st.kept = map[string]int{}
 						}
-						if n < 2 && len(st.Violations) < 40 {
+						n := st.kept[cls]
+						st.kept[cls]++
+						if n < 2 && len(st.Violations) < vrep.MaxKept {
 							st.Violations = append(st.Violations, CounterExample{History: sp.showHist(part[i].hist, s.op), Key: v.Key, Desc: v.Desc})
 						}
 						if !sp.ExtendOnViolation || s.dead {
